@@ -230,7 +230,17 @@ func runC11(c *Ctx) {
 			argNames[v] = name
 		}
 	}
-	// per row: constructor arguments vs argCount()/arg(i)
+	// per row: constructor arguments vs argCount()/arg(i). The constructors
+	// (functions returning a pOpArgTypeList) are anchors: their calls carry the
+	// declared arguments.
+	if listT := m.lookupType(aml, "pOpArgTypeList"); listT != nil {
+		for _, mem := range pkg.Members {
+			if fn, ok := mem.(*ssa.Function); ok && fn.Signature.Recv() == nil && fn.Signature.Results().Len() == 1 &&
+				types.Identical(fn.Signature.Results().At(0).Type(), listT) {
+				m.anchor(fn)
+			}
+		}
+	}
 	init := pkg.Func("init")
 	ctor := map[int][]uint64{} // row -> constructor args
 	for _, b := range init.Blocks {
@@ -488,10 +498,26 @@ func c11PerTableState(c *Ctx) {
 		isParserField[st.Field(i)] = true
 	}
 	// the first Parser field selected on the path of a store (p.r.offset -> r)
+	// the Parser field a store writes: a component of the Parser struct itself,
+	// or an element of a slice the Parser holds; a store into an object that a
+	// Parser field points to (p.objTree.x) writes that object, not the Parser
 	firstField := func(s *ssa.Store) *types.Var {
-		for _, f := range storedFieldsAll(accessPath(s.Addr)) {
-			if isParserField[f] {
-				return f
+		p := accessPath(s.Addr)
+		fd := len(p)
+		for i, e := range p {
+			if e.Kind == "deref" {
+				fd = i
+				break
+			}
+		}
+		for _, e := range p[fd:] {
+			if e.Kind == "field" {
+				return nil
+			}
+		}
+		for _, e := range p[:fd] {
+			if e.Kind == "field" && isParserField[e.Field] {
+				return e.Field
 			}
 		}
 		return nil
